@@ -24,6 +24,10 @@ type Cond struct {
 	Name   string
 	Match  func(f *Fact, o *Origins) bool
 	ForAll string
+	// PerIteration: the condition must be established within the same iteration of every loop that encloses
+	// the target (the back edges of those loops are cut as well, so that an accept edge passed in an earlier
+	// iteration does not count).
+	PerIteration bool
 	// Via restricts interprocedural descent: when non-nil only callees for which it returns true
 	// are looked into (default: every module function).
 	Via func(callee *ssa.Function) bool
@@ -444,6 +448,20 @@ func (o *Origins) Requires(target ssa.Instruction, cond *Cond) (bool, string) {
 	cut := NewCut()
 	for e := range acc {
 		cut.Edges[e] = true
+	}
+	if cond.PerIteration {
+		for _, l := range o.Loops.Loops {
+			if !l.Blocks[target.Block()] {
+				continue
+			}
+			for _, lb := range l.Latches {
+				for i, sb := range lb.Succs {
+					if sb == l.Header {
+						cut.Edges[Edge{lb, i}] = true
+					}
+				}
+			}
+		}
 	}
 	reach, path := ReachFromEntry(o.Fn, target, cut)
 	if !reach {
